@@ -223,6 +223,10 @@ type c16InB struct {
 	Nums  []int   `json:"nums"`
 	Lim   *int    `json:"lim,omitempty"`
 }
+type c16InC struct {
+	Limit    int `json:"limit,omitempty"`
+	MaxItems int `json:"maxItems,omitempty"`
+}
 type c16OutS struct {
 	N    int      `json:"n"`
 	Mode string   `json:"mode"`
@@ -268,6 +272,10 @@ func c16ViewB(in c16InB) any {
 	return []any{"obj", m}
 }
 
+func c16ViewC(in c16InC) any {
+	return []any{"obj", map[string]any{"limit": []any{"int", int64(in.Limit)}, "maxItems": []any{"int", int64(in.MaxItems)}}}
+}
+
 // ---------------------------------------------------------------------------
 // cases and observations
 
@@ -281,7 +289,7 @@ type c16Line struct {
 	Vid   string          `json:"vid,omitempty"`
 	Vr    json.RawMessage `json:"vr,omitempty"`
 	Ty    string          `json:"ty,omitempty"`
-	Cache bool            `json:"cache"`
+	Cache string          `json:"cache,omitempty"` // SchemaCache arrangement: none | warm | xfirst
 	Cls   []string        `json:"cls,omitempty"`
 	Args  json.RawMessage `json:"args,omitempty"`
 	// output cases
@@ -355,12 +363,28 @@ func c16AddReflected(s *mcp.Server, st *c16State) {
 		st.seen = c16ViewB(in)
 		return nil, nil, nil
 	})
+	mcp.AddTool(s, &mcp.Tool{Name: "rin.InC"}, func(ctx context.Context, req *mcp.CallToolRequest, in c16InC) (*mcp.CallToolResult, any, error) {
+		st.calls++
+		st.seen = c16ViewC(in)
+		return nil, nil, nil
+	})
 	c16AddOut(s, st, "rout.struct", nil, func() (v c16OutS) { st.typed(&v); return })
 	c16AddOut(s, st, "rout.ptr", nil, func() (v *c16OutS) { st.typed(&v); return })
 	c16AddOut(s, st, "rout.strs", nil, func() (v []string) { st.typed(&v); return })
 	c16AddOut(s, st, "rout.rint", nil, func() (v int) { st.typed(&v); return })
 	c16AddOut(s, st, "rout.rstr", nil, func() (v string) { st.typed(&v); return })
 	c16AddOut(s, st, "rout.rbool", nil, func() (v bool) { st.typed(&v); return })
+}
+
+// Tools whose Go types (c16InC, c16OutS) also occur with an inferred schema, but which declare their own,
+// different schema (sin: tolerant of additional members and bounded; outsx: n <= 10).
+func c16AddExplicitStruct(s *mcp.Server, st *c16State, inC, outSX json.RawMessage) {
+	mcp.AddTool(s, &mcp.Tool{Name: "sin.InC", InputSchema: inC}, func(ctx context.Context, req *mcp.CallToolRequest, in c16InC) (*mcp.CallToolResult, any, error) {
+		st.calls++
+		st.seen = c16ViewC(in)
+		return nil, nil, nil
+	})
+	c16AddOut(s, st, "out.outsx.structx", outSX, func() (v c16OutS) { st.typed(&v); return })
 }
 
 func c16Connect(t *testing.T, ctx context.Context, s *mcp.Server) *mcp.ClientSession {
@@ -376,6 +400,14 @@ func c16Connect(t *testing.T, ctx context.Context, s *mcp.Server) *mcp.ClientSes
 		t.Fatal(err)
 	}
 	t.Cleanup(func() { cs.Close() })
+	return cs
+}
+
+func c16Session(t *testing.T, m map[string]*mcp.ClientSession, cache string) *mcp.ClientSession {
+	cs := m[cache]
+	if cs == nil {
+		t.Fatalf("c16: unknown cache arrangement %q", cache)
+	}
 	return cs
 }
 
@@ -406,13 +438,22 @@ func TestVerif_C16(t *testing.T) {
 	st := new(c16State)
 	impl := &mcp.Implementation{Name: "c16-server", Version: "1"}
 	plainSrv := mcp.NewServer(impl, nil)
+	var schemaInC, schemaOutSX json.RawMessage
 	// explicit schemas: In = map[string]any, Out = any (input side); Out = any / typed (output side)
 	for _, l := range lines {
 		if l.Kind != "schema" {
 			continue
 		}
-		if l.Dir == "in" {
-			mcp.AddTool(plainSrv, &mcp.Tool{Name: "in." + l.ID, InputSchema: l.Schema},
+		if l.Dir == "sin" {
+			schemaInC = l.Schema
+			continue
+		}
+		if l.Dir == "out" && l.ID == "outsx" {
+			schemaOutSX = l.Schema
+			continue
+		}
+		if l.Dir == "in" || l.Dir == "xin" {
+			mcp.AddTool(plainSrv, &mcp.Tool{Name: l.Dir + "." + l.ID, InputSchema: l.Schema},
 				func(ctx context.Context, req *mcp.CallToolRequest, in map[string]any) (*mcp.CallToolResult, any, error) {
 					st.calls++
 					st.seen = c16Tag(in)
@@ -439,15 +480,26 @@ func TestVerif_C16(t *testing.T) {
 			c16AddOut(plainSrv, st, "out.enum.str", l.Schema, func() (v string) { st.typed(&v); return })
 		}
 	}
-	// reflected schemas, without a SchemaCache ...
+	if schemaInC == nil || schemaOutSX == nil {
+		t.Fatal("c16: schema lines for sin/InC and out/outsx missing")
+	}
+	// no SchemaCache
 	c16AddReflected(plainSrv, st)
-	// ... and served from a SchemaCache that an earlier Server has filled
-	cache := mcp.NewSchemaCache()
-	c16AddReflected(mcp.NewServer(impl, &mcp.ServerOptions{SchemaCache: cache}), st)
-	cachedSrv := mcp.NewServer(impl, &mcp.ServerOptions{SchemaCache: cache})
-	c16AddReflected(cachedSrv, st)
+	c16AddExplicitStruct(plainSrv, st, schemaInC, schemaOutSX)
+	// "warm": the cache has been filled with the inferred schemas by an earlier Server; inferred tools first,
+	// then the explicit-schema tools of the same Go types
+	warm := mcp.NewSchemaCache()
+	c16AddReflected(mcp.NewServer(impl, &mcp.ServerOptions{SchemaCache: warm}), st)
+	warmSrv := mcp.NewServer(impl, &mcp.ServerOptions{SchemaCache: warm})
+	c16AddReflected(warmSrv, st)
+	c16AddExplicitStruct(warmSrv, st, schemaInC, schemaOutSX)
+	// "xfirst": fresh cache, explicit-schema tools first, then the inferred tools of the same Go types
+	xfirstSrv := mcp.NewServer(impl, &mcp.ServerOptions{SchemaCache: mcp.NewSchemaCache()})
+	c16AddExplicitStruct(xfirstSrv, st, schemaInC, schemaOutSX)
+	c16AddReflected(xfirstSrv, st)
 
-	sessions := map[bool]*mcp.ClientSession{false: c16Connect(t, ctx, plainSrv), true: c16Connect(t, ctx, cachedSrv)}
+	sessions := map[string]*mcp.ClientSession{"none": c16Connect(t, ctx, plainSrv), "warm": c16Connect(t, ctx, warmSrv),
+		"xfirst": c16Connect(t, ctx, xfirstSrv)}
 
 	// advertised schemas (for the binding check of the reflected family)
 	adv := map[string]any{}
@@ -456,7 +508,7 @@ func TestVerif_C16(t *testing.T) {
 			if err != nil {
 				t.Fatalf("tools/list: %v", err)
 			}
-			adv[fmt.Sprintf("%s|cache=%v", tool.Name, cached)] = map[string]any{"in": tool.InputSchema, "out": tool.OutputSchema}
+			adv[fmt.Sprintf("%s|cache=%s", tool.Name, cached)] = map[string]any{"in": tool.InputSchema, "out": tool.OutputSchema}
 		}
 	}
 	advb, _ := json.Marshal(adv)
@@ -491,9 +543,9 @@ func TestVerif_C16(t *testing.T) {
 
 	for _, l := range lines {
 		switch l.Kind {
-		case "in", "rin":
+		case "in", "xin", "rin", "sin":
 			name := l.Kind + "." + l.Vid
-			res, proto := call(sessions[l.Cache], name, c16Text(r, c16Untag(l.Args)))
+			res, proto := call(c16Session(t, sessions, l.Cache), name, c16Text(r, c16Untag(l.Args)))
 			o := c16InObs{Ran: st.calls > 0, Calls: st.calls, Seen: c16Null, Proto: proto}
 			if st.calls > 0 {
 				o.Seen = st.seen
@@ -508,7 +560,7 @@ func TestVerif_C16(t *testing.T) {
 				name = "rout." + l.Okind
 			}
 			st.cur, st.plain = l, c16Untag(l.Out)
-			res, proto := call(sessions[l.Cache], name, "{}")
+			res, proto := call(c16Session(t, sessions, l.Cache), name, "{}")
 			o := c16OutObs{Ran: st.calls > 0, Proto: proto, Sc: c16Null, Texts: []any{}}
 			if res != nil {
 				o.IsError = res.IsError
